@@ -282,14 +282,38 @@ func c14Check(c *vf.Ctx, cs *c14Case) {
 	})
 }
 
+// c14HeaderDomain: the NAL header helpers over their complete domain (all 256 first header bytes, all type values).
+func c14HeaderDomain(c *vf.Ctx) {
+	var n int64
+	for b := 0; b < 256; b++ {
+		if got, want := int(avc.GetNaluType(byte(b))), b&0x1f; got != want {
+			c.Fail("avc GetNaluType", "nal_unit_type is the low five bits of the NAL header byte", map[string]interface{}{"kind": "header", "byte": b, "got": got, "want": want})
+		}
+		if got, want := int(hevc.GetNaluType(byte(b))), (b>>1)&0x3f; got != want {
+			c.Fail("hevc GetNaluType", "nal_unit_type is bits 1..6 of the first NAL header byte", map[string]interface{}{"kind": "header", "byte": b, "got": got, "want": want})
+		}
+		if got, want := avc.IsVideoNaluType(avc.NaluType(b)), b <= 5; got != want {
+			c.Fail("avc IsVideoNaluType", "AVC video (VCL) NAL unit types are those up to 5", map[string]interface{}{"kind": "header", "type": b, "got": got})
+		}
+		if got, want := hevc.IsVideoNaluType(hevc.NaluType(b)), b <= 31; got != want {
+			c.Fail("hevc IsVideoNaluType", "HEVC video (VCL) NAL unit types are 0..31", map[string]interface{}{"kind": "header", "type": b, "got": got})
+		}
+		n += 4
+	}
+	c.Evals.Add(n)
+	c.DistinctN.Add(n)
+	c.Add("header_byte_cases", n)
+}
+
 func runC14(c *vf.Ctx) {
 	thorough := c.Tier == "thorough"
+	c14HeaderDomain(c)
 	maxSize, maxN := 20, 3
 	if thorough {
 		maxSize, maxN = 26, 4
 		c.SetBudget(12 * 60 * 1e9)
 	}
-	c.Rule = "(A) framing: streams of 1..n NAL units, each of EVERY size 1..S (HEVC: 2..S) so that every start-code alignment and total length modulo the machine word is hit, every start-code length pattern in {3,4}^n, content class {non-zero filler, interior single zeros, interior 00 00 03}; (B) types: all type sequences of length 1..4 over {1,5,6,7,8,9} (AVC) / {1,19,20,21,32,33,34,39} (HEVC) with sizes {2,5}; every helper (extract, both conversions, sample walkers, type lists, contains, IDR/RAP, parameter sets from sample and byte stream, nalus of type with and without stopAtVideo, first video NAL unit) is compared with the generating unit list; the byte-at-a-time reference scanner is checked against the generator on every stream."
+	c.Rule = "(A) framing: streams of 1..n NAL units, each of EVERY size 1..S (HEVC: 2..S) so that every start-code alignment and total length modulo the machine word is hit, every start-code length pattern in {3,4}^n, content class {non-zero filler, interior single zeros, interior 00 00 03}; (B) types: all type sequences of length 1..4 over {1,5,6,7,8,9} (AVC) / {1,19,20,21,32,33,34,39} (HEVC) with sizes {2,5}; every helper (extract, both conversions, sample walkers, type lists, contains, IDR/RAP, parameter sets from sample and byte stream, nalus of type with and without stopAtVideo, first video NAL unit) is compared with the generating unit list; the byte-at-a-time reference scanner is checked against the generator on every stream; (C) GetNaluType / IsVideoNaluType of both codecs over all 256 header bytes / type values."
 	c.Bound = fmt.Sprintf("framing: n <= %d units, sizes <= %d; type sequences: length <= 4", maxN, maxSize)
 	type shard struct {
 		codec string
